@@ -1278,14 +1278,7 @@ fn hang_binop_expression(
                     };
 
                     let rhs = if contains_comments(&*rhs) {
-                        hang_binop_expression(
-                            ctx,
-                            *rhs,
-                            binop,
-                            shape,
-                            lhs_range,
-                            rhs_context,
-                        )
+                        hang_binop_expression(ctx, *rhs, binop, shape, lhs_range, rhs_context)
                     } else {
                         format_expression_internal(
                             ctx,
